@@ -48,5 +48,6 @@ type PerpetualKeeper interface {
 	HandleOpenEstimation(ctx sdk.Context, req *perpetualtypes.QueryOpenEstimationRequest) (*perpetualtypes.QueryOpenEstimationResponse, error)
 	HandleCloseEstimation(ctx sdk.Context, req *perpetualtypes.QueryCloseEstimationRequest) (res *perpetualtypes.QueryCloseEstimationResponse, err error)
 	GetAssetPrice(ctx sdk.Context, asset string) (sdkmath.LegacyDec, error)
+	GetAssetPriceAndDecimals(ctx sdk.Context, asset string) (sdkmath.LegacyDec, uint64, error)
 	GetMTPsForAddressWithPagination(ctx sdk.Context, mtpAddress sdk.AccAddress, pagination *query.PageRequest) ([]*perpetualtypes.MtpAndPrice, *query.PageResponse, error)
 }
